@@ -20,6 +20,11 @@ FIXED = {
     "map-ops": "m := {a:1 b:2}\nx := m[\"a\"]\nm[\"c\"] = x\nm[\"a\"] = 3\nk := \"b\"\nx = m[k]\n",
     "map-nested": "m := {a:[1 2] b:[3]}\nm[\"a\"][0] = 9\nx := m[\"b\"][0]\nx = x\nn := {p:{q:1}}\nn[\"p\"][\"q\"] = 2\n",
     "str-ops": "s := \"hello\"\nc := s[0]\nc = s[-1]\nt := s[1:3]\nt = s[:2] + s[2:]\nc = c + t\n",
+    # constants of different types that print alike, in both textual orders, each consumed by a typed instruction
+    "const-clash-str-first": "label := \"0\"\nn := 0\nfor ch := range \"abc\"\n    label = label + ch\n    n = n + 1\nend\nfor e := range [1 2]\n    n = n + e\nend\nlabel = label + \"1\"\n",
+    "const-clash-num-first": "n := 0\nn = n + 1\nlabel := \"0\" + \"1\"\nfor ch := range \"10\"\n    label = label + ch\nend\nm := {k:\"1\"}\nlabel = label + m[\"k\"]\nx := [10 1 0][n]\nx = x\n",
+    "const-clash-bool": "b := true\ns := \"true\"\ns = s + \"false\"\nb = b and false\nb = !b\nt := \"2\" < \"10\"\nu := 2 < 10\nt = t == u\n",
+    "const-clash-range": "y := 2024\nc := 0\nfor ch := range \"2024\"\n    c = c + 1\nend\nfor i := range 2\n    c = c + i\nend\ns := \"2\" + \"0\"\nc = c + y\ns = s\n",
     "if": "x := 1\nif x > 0\n    x = 2\nend\n",
     "if-else": "x := 1\nif x > 0\n    x = 2\nelse\n    x = 3\nend\n",
     "if-elseif": "x := 1\nif x > 2\n    x = 2\nelse if x > 1\n    x = 3\nelse if x > 0\n    x = 4\nend\n",
@@ -157,7 +162,8 @@ class Gen:
             return "%s[%s][%s]" % (self.atom(AANUM, d + 1), self.index(d), self.index(d))
         if ty == STR:
             if leaf:
-                return '"%s"' % r.choice(["a", "bc", "hello", "x y", "a", "bc", "hello", "x y", ""])
+                # also strings that look like the number and boolean constants of the program
+                return '"%s"' % r.choice(["a", "bc", "hello", "x y", "a", "bc", "hello", "x y", "", "0", "1", "2", "3", "5", "10", "0.5", "100", "true", "false", "-1"])
             k = r.randrange(4)
             if k == 0 and self.inloop:
                 k = 1       # no concatenation inside loops (s = s + s doubles the value every time round)
